@@ -199,6 +199,9 @@ impl Property for C16 {
             "a history stops at the first add_* error or panic (the type space is documented to be in an undefined state then)".into(),
         ]
     }
+    fn fuzz_gen(&self, g: &mut G) -> Option<Value> {
+        Some(gen_c16_case(g))
+    }
     fn generate(&self, tier: Tier, seed: u64) -> Vec<Value> {
         gen::draw(seed, "C16", tier.pick(2500, 120000), gen_c16_case)
     }
